@@ -28,6 +28,7 @@ PROBES = [
     "cache-size-0",
     "short-root-replaced",
     "bystander-op",
+    "dead-node-count-asked-by-subscript",
 ]
 FAULTS = ["batch-abort", "batch-abort-base", "restart-regenerated-counts"]
 COMPONENTS = {
@@ -88,6 +89,22 @@ class World(HWorld):
 
     def check_exact(self, h):
         super().check_exact(h)
+        # a client asks, by subscript, how often some nodes of earlier versions are
+        # referenced now (the table is a defaultdict: asking must not disturb anything)
+        live = self.ref(h).body
+        dead = [x for x in getattr(self, "_seen_nodes", ()) if x not in live]
+        for x in dead[: 3 if self.cfg.get("ask_dead") else 0]:
+            n = h.trie.ref_count[x]
+            if n != 0:
+                self.viol("refcount-mismatch", f"ref_count[{x.hex()}] == {n} for a node that is not part of the current trie")
+            self.st.probe("dead-node-count-asked-by-subscript")
+        seen = getattr(self, "_seen_nodes", None)
+        if seen is None:
+            seen = self._seen_nodes = []
+        for x in sorted(live):
+            if x not in seen:
+                seen.append(x)
+        del seen[:-60]
         # every stored key stays readable (a rotating sample, no PRNG)
         keys = sorted(h.model)
         if keys:
@@ -118,7 +135,7 @@ def generate(rng):
             if rng.random() < 0.7:
                 c["v"] = hx(rng.choice(values))
             cmds.insert(rng.randrange(len(cmds) + 1), c)
-    return {"prop": ID, "cfg": {"prune": True, "cache": cache}, "cmds": cmds}
+    return {"prop": ID, "cfg": {"prune": True, "cache": cache, "rc": rng.choice(["defaultdict", "defaultdict", "counter"]), "ask_dead": int(rng.random() < 0.5)}, "cmds": cmds}
 
 
 def execute(case, st):
